@@ -4,6 +4,12 @@ import Proofs.Lemmas.WireInv2
 import Proofs.Lemmas.WireSound2
 import Proofs.Lemmas.SerSem
 import Proofs.Lemmas.SerFuel2
+import Proofs.Lemmas.DepthGraph
+import Proofs.Lemmas.InputFacts
+import Proofs.Lemmas.CodecTable
+import Generated.C14Recursion
+import Generated.C14Input
+import Generated.C14Wrappers
 /-!
 # C14 — encoders are faithful and decoders total
 
@@ -309,5 +315,264 @@ example : Sized (.arr (.cons [] (.int 7) (.cons [107] (.float [49, 46, 53]) (.co
     decide
 example : ser (.arr (.cons [] (.str [97]) (.cons [] (.str [98]) .nil))) =
     some [97, 58, 50, 58, 123, 105, 58, 48, 59, 115, 58, 49, 58, 34, 97, 34, 59, 105, 58, 49, 59, 115, 58, 49, 58, 34, 98, 34, 59, 125] := by rfl
+
+/-! ## regenerated facts (tie between the models above and the source)
+
+`extract/c14` regenerates, on every run, three tables from the anchored sources (`Generated.C14Recursion`,
+`Generated.C14Input`, `Generated.C14Wrappers`). Each block below has: what a well-formed table guarantees, proved for
+*every* table (unbounded); the obligation that the regenerated table is well-formed / is the table the hand-written model
+embodies (`decide`, re-checked on every run, so a source change that invalidates the model breaks the obligation that names
+it); a negation witness: a concrete ill-formed table of the shape of a realistic mistake, and what breaks. -/
+
+section Tie
+open Model.DepthGraph Proofs.DepthGraph
+
+/-- `decide`, and when the regenerated table no longer satisfies the statement, an error that names the obligation -/
+macro "obligation " msg:str : tactic => `(tactic| first | decide | fail $msg)
+
+/-! ### recursion depth -/
+
+/-- **A well-formed depth graph bounds the recursion, for every input.** Whatever group of mutually recursive functions,
+whatever limit: if every recursive call hands on `depth + literal`, no cycle of calls keeps the depth unchanged, every cycle
+passes a limit test and the group is entered at a literal depth, then no call stack of the group holds more than
+`(max limit start + largest increment + 1) · (functions + 1)` frames. -/
+theorem C14_depth_graph_bounds_recursion (g : Graph) (hwf : g.WF = true) (lim : Nat) (st : List Frame)
+    (hs : Stack g lim st) : st.length ≤ g.bound lim := stack_bounded g hwf lim st hs
+
+/-- the counter counts: under a well-formed graph the innermost depth bounds the stack above it -/
+theorem C14_depth_counter_counts (g : Graph) (hwf : g.WF = true) (lim : Nat) (st : List Frame) (hs : Stack g lim st) :
+    ∃ f d rest, st = ⟨f, d⟩ :: rest ∧ d ≤ max lim g.maxStart + g.maxInc ∧
+      st.length ≤ (d + 1) * (g.fns.length + 1) := by
+  obtain ⟨f, d, rest, h1, h2, _, h4⟩ := stack_inv g hwf lim st hs
+  exact ⟨f, d, rest, h1, h2, by omega⟩
+
+/-- **Obligation**: every recursive group of the codecs that carries a depth counter (today: the wire parser) is
+well-formed, and the translator understood every call site, test and entry it met. -/
+theorem C14_depth_graphs_wellformed :
+    Generated.C14Recursion.graphs.all (·.WF) = true ∧ Generated.C14Recursion.shapeNotes = [] := by obligation "C14_depth_graphs_wellformed: a recursive codec function hands on a depth the discipline does not allow (a call that keeps the depth on a cycle, a literal or unreadable depth argument, a cycle without a limit test, an unreadable test) — see Generated/C14Recursion.lean"
+
+/-- **Obligation**: the depth graph of `std/protowire/parser.go` is the one `Model.Wire` embodies — same entry tests
+(`>=`), same increment at each of the four recursive call sites, entered at 0, default limit 64 when `MaxDepth <= 0`. -/
+theorem C14_wire_depth_graph_is_model :
+    (Generated.C14Recursion.graphs.find? (·.file == "std/protowire/parser.go")).map Graph.shape = some wireGraph.shape := by
+  obligation "C14_wire_depth_graph_is_model: the depth graph of std/protowire/parser.go (entry tests, depth argument of the four recursive calls, start depth, default limit) is no longer the one Model.Wire embodies"
+
+/-- recursion without a counter (the serialize reader / writer, the JSON layers, the value converters of the protowire
+class): bounded by the size of the input or of the value only; none may appear where there was none -/
+def knownUnlimited : List String :=
+  ["std/php/json_decode.go", "std/php/serialize.go", "std/php/unserialize.go", "std/protowire/helpers.go",
+   "std/protowire/serialize_method.go", "std/serializer/json/json_serializer.go"]
+
+/-- **Obligation**: no codec file gained a recursion without a depth counter (in particular the wire parser did not lose its own) -/
+theorem C14_uncounted_recursions_known :
+    Generated.C14Recursion.unlimitedFiles.all (knownUnlimited.contains ·) = true := by obligation "C14_uncounted_recursions_known: a codec file has a recursion without a depth counter that it did not have before"
+
+/-- the budget `Spec.Wire.Fits` (hypothesis of `C14_wire_roundtrip`) is what the model's depth graph lets through -/
+theorem C14_wire_budget_is_graph (lim : Nat) (t : Model.Wire.FT) (d : Nat) :
+    FitsVia wireGraph lim t d ↔ Spec.Wire.Fits lim t d := fitsVia_wire lim t d
+
+/-- **Every well-formed three-function graph honours the limit** on field trees: a tree it lets through from the top has
+at most `limit + 1` levels (`limit` when the tests are `>=`, as `C14_wire_depth_honoured` shows for the model's graph). -/
+theorem C14_wire_depth_from_graph (g : Graph) (hwf : g.WF = true) (lim : Nat) (t : Model.Wire.FT)
+    (h : FitsVia g lim t 0) : Spec.Wire.nest t ≤ lim + 1 := by
+  cases fitsVia_nest g hwf lim t 0 h with
+  | inl h0 => omega
+  | inr h0 => omega
+
+/-- the limit the parser works with is the default rule of the graph applied to `MaxDepth` -/
+theorem C14_wire_default_limit (o : Model.Wire.Opts) :
+    o.max = (Default.mk "ParseRawFields" "le" 0 64).apply o.maxDepth := by
+  unfold Model.Wire.Opts.max Default.apply
+  by_cases h : o.maxDepth ≤ 0 <;> simp [h]
+
+/-- **Negation witness** (the shape of seeded change `C14-group-depth-not-counted`): with `consumeGroup` handing `depth`
+unchanged to `consumeFieldValue` the graph has a cycle that keeps the depth; it is not well-formed, under limit 1 it lets
+`n` nested groups through for every `n`, and its call stacks grow without bound. -/
+theorem C14_flat_group_cycle_unbounded :
+    flatGroupGraph.WF = false ∧ flatGroupGraph.noFlatCycle = false ∧
+    (∀ n, FitsVia flatGroupGraph 1 (groups n) 0 ∧ Spec.Wire.nest (groups n) = n) ∧
+    (∀ n, ∃ st, Stack flatGroupGraph 1 st ∧ n < st.length) := by
+  refine ⟨by decide, by decide, fun n => ⟨flat_fits_all n, nest_groups n⟩, fun n => ?_⟩
+  obtain ⟨rest, hs, hn⟩ := flat_stack_grows n
+  exact ⟨_, hs, by simp; omega⟩
+
+/-- a parser without an entry test in `consumeGroup` (mutant) is not well-formed either: the group cycle passes no test -/
+example : ({ wireGraph with fns := [⟨"parseFields", some .ge, "opts.MaxDepth"⟩, ⟨"consumeFieldValue", none, ""⟩,
+    ⟨"consumeGroup", none, ""⟩] } : Graph).cyclesTested = false := by decide
+/-- nor one whose test is `==` -/
+example : ({ wireGraph with fns := [⟨"parseFields", some .other, "opts.MaxDepth"⟩, ⟨"consumeFieldValue", none, ""⟩,
+    ⟨"consumeGroup", some .ge, "opts.MaxDepth"⟩] } : Graph).WF = false := by decide
+/-- non-vacuity: the model's graph is well-formed, has stacks, and its bound under the default limit is 264 frames -/
+example : wireGraph.WF = true ∧ wireGraph.bound 64 = 264 := by decide
+example : Stack wireGraph 2 [⟨1, 1⟩, ⟨2, 0⟩, ⟨1, 0⟩, ⟨0, 0⟩] := by
+  have h0 : Stack wireGraph 2 [⟨0, 0⟩] := Stack.entry ⟨"ParseRawFields", 0, .const 0⟩ 0 (by simp [wireGraph]) rfl (by decide)
+  have h1 := Stack.call ⟨0, 1, .plus 0, none⟩ 0 0 0 [] h0 (by simp [wireGraph]) rfl rfl (by decide)
+  have h2 := Stack.call ⟨1, 2, .plus 0, none⟩ 1 0 0 _ h1 (by simp [wireGraph]) rfl rfl (by decide)
+  exact Stack.call ⟨2, 1, .plus 1, none⟩ 2 0 1 _ h2 (by simp [wireGraph]) rfl rfl (by decide)
+
+/-! ### how the wire parser handles its input -/
+
+open Model.InputFacts Proofs.InputFacts
+
+/-- **A tested consume site is total**: with the test `n <= 0` (or `n < 0`) after it, a `Consume*` call followed by
+`data[n:]` never slices out of range and always shortens the input, whatever the primitive returns within its contract. -/
+theorem C14_consume_guard_total (s : ConsumeSite) (hs : s.ok = true) (n : Int) (len : Nat) (h0 : n ≠ 0) (hl : n ≤ len) :
+    consume s.guard n len ≠ .panic ∧ ∀ r, consume s.guard n len = .ok r → r < len := consume_safe s hs n len h0 hl
+
+/-- **Obligation**: every `Consume*` call of the wire parser is followed by such a test (nine sites today). -/
+theorem C14_wire_consume_sites_guarded :
+    Generated.C14Input.consumeSites.all (·.ok) = true ∧ Generated.C14Input.consumeSites ≠ [] := by obligation "C14_wire_consume_sites_guarded: a Consume* call of the wire parser is not followed by a test `n <= 0` before its length is used"
+
+/-- **Negation witness** (seeded change `C14-packed-fixed-trailing-bytes` dropped the test; a mutant wrote `n == 0`):
+a malformed element, for which the primitive answers -1, is sliced with a negative bound. -/
+theorem C14_consume_unguarded_panics : consume "none" (-1) 4 = .panic ∧ consume "eq0" (-1) 4 = .panic :=
+  consume_unguarded_panics
+
+/-- a loop that runs while the input is non-empty can only end, other than by `return`, with every byte consumed -/
+theorem C14_loop_exhausts_input (rem : Nat) (h : exitsWith "nonempty" rem = true) : rem = 0 := nonempty_exits_empty rem h
+
+/-- **Obligation**: the five loops over input bytes run `for len(data) > 0`; the message loop then answers, the group loop
+reports the missing end tag (`loopF _ [] = ok`, `loopG _ [] = unexpectedEnd`, the `unpack*` loops of the model). -/
+theorem C14_wire_loops_exhaust_input :
+    loopsOk Generated.C14Input.loops = true ∧ Generated.C14Input.loops ≠ [] := by obligation "C14_wire_loops_exhaust_input: a loop over the input of the wire parser no longer runs `for len(data) > 0` / ends the way the model does"
+
+/-- negation witness (the same seeded change wrote `for len(data) >= 4`): such a loop may stop with bytes left -/
+example : exitsWith "len(data) >= 4" 3 = true := by decide
+
+/-- **Obligation**: an end-group tag is an error in a message's field list and closes a group only when the numbers
+match (`loopF`: `endGroup`; `loopG`: `mismatch` / the fields) -/
+theorem C14_wire_endgroup_handling :
+    Generated.C14Input.endGroups.map (fun e => (e.idx, e.action)) = Model.InputFacts.endGroups := by obligation "C14_wire_endgroup_handling: what a field loop does with an end-group tag changed (message list: error; group: close only when the numbers match)"
+
+/-- **Obligation**: the wire types the parser dispatches on, what each arm consumes, the refusing default arms, the
+order in which the length-delimited arm asks the options, and the values of the `Wire*` constants are the model's. -/
+theorem C14_wire_dispatch_is_model :
+    Generated.C14Input.dispatch.map (fun d => (d.role, d.cases, d.dflt)) =
+      [("field", fieldDispatch, "error"), ("packed", packedDispatch, "error")] ∧
+    Generated.C14Input.lenOrder = Model.InputFacts.lenOrder ∧
+    Generated.C14Input.wireConsts.map (·.2) = [0, 1, 2, 3, 4, 5] := by obligation "C14_wire_dispatch_is_model: the wire types the parser dispatches on, what an arm consumes, a default arm, the order of the packed / message options or a Wire* constant changed"
+
+/-- the model refuses every wire type outside the table … -/
+theorem C14_wire_other_types_refused (o : Model.Wire.Opts) (rf : Model.Wire.Bytes → Nat → Except Model.Wire.Err Model.Wire.FT)
+    (rg : Model.Wire.Bytes → Nat → Nat → Except Model.Wire.Err (Model.Wire.FT × Model.Wire.Bytes))
+    (num wt : Nat) (data : Model.Wire.Bytes) (depth : Nat) (h : wt ∉ fieldDispatch.map (·.1)) :
+    Model.Wire.valueWith o rf rg num wt data depth = .error .wireType :=
+  value_refuses_other_types o rf rg num wt data depth h
+
+/-- … and every packed element type outside its table -/
+theorem C14_wire_other_packed_types_refused (et : Nat) (data : Model.Wire.Bytes) (h : et ∉ packedDispatch.map (·.1)) :
+    Model.Wire.unpackPacked et data = .error .packedType := packed_refuses_other_types et data h
+
+/-! ### how the serialize reader handles its input -/
+
+/-- **Obligation**: the reader's tag switch, the prefix gate of `Call`, the accepted key types are the model's
+(`pValue`, `knownPrefix`, `keyOk`), and every tag the writer emits is one the reader knows, `O:` excepted. -/
+theorem C14_unserialize_dispatch_is_model :
+    Generated.C14Input.tagSwitches.map (fun t => (t.tags, t.dflt)) = [(readerTags, "reject"), (boolTags, "reject")] ∧
+    Generated.C14Input.gate = Model.InputFacts.gate ∧
+    Generated.C14Input.keyTypes = Model.InputFacts.keyTypes ∧
+    writerCovered Generated.C14Input.writerTags readerTags writerOnly = true := by obligation "C14_unserialize_dispatch_is_model: the reader's tag switch, the prefix gate of Call, the accepted key types or the writer's tags changed"
+
+/-- the model refuses every first byte that is not a tag of the table, and its gate is the table's -/
+theorem C14_unserialize_other_tags_refused (fuel c : Nat) (rest : Model.Ser.Bytes)
+    (h : [c] ∉ readerTags.map bytesOf) : Model.Ser.pValue (fuel + 1) (c :: rest) = none :=
+  reader_refuses_other_tags fuel c rest h
+
+theorem C14_unserialize_gate_is_table (s : Model.Ser.Bytes) :
+    Model.Ser.knownPrefix s = (Model.InputFacts.gate.map bytesOf).any (fun p => Model.Ser.startsWith p s) :=
+  gate_is_knownPrefix s
+
+/-- **A bounded length cannot wrap**: once a declared length was held against the input length, `begin + n` stays in
+int64 and the access after the `end+2 > len` test is in range. -/
+theorem C14_bounded_length_is_safe (len b n : Nat) (hlen : len < 4611686018427387903) (hb : b ≤ len) :
+    strAccess true len b n ≠ .panic := strAccess_bounded_safe len b n hlen hb
+
+/-- **Obligation**: every integer read from the input that is added to a position, sizes an allocation or indexes the
+input is first rejected when it exceeds the input length. -/
+theorem C14_unserialize_lengths_bounded : Generated.C14Input.lengthReads.all (·.ok) = true := by obligation "C14_unserialize_lengths_bounded: an integer read from the input is added to a position / sizes an allocation without having been held against the input length"
+
+/-- **Negation witness** (seeded change `C14-unserialize-length-overflow` dropped `n > len(s)`): a length near 2^63 wraps
+`begin + n` negative, the remaining test passes, `s[end]` panics. -/
+theorem C14_unbounded_length_panics : strAccess false 10 5 9223372036854775803 = .panic := strAccess_unbounded_panics
+
+/-- **A covered index is in range** wherever the test in force holds. -/
+theorem C14_covered_index_in_range (s : IndexSite) (hc : s.covered = true) (base len h : Nat) (hr : s.room = some h)
+    (ht : base + h ≤ len) : base + s.need ≤ len := covered_in_range s hc base len h hr ht
+
+/-- **Obligation**: every index and slice the reader takes of its input is covered by a bounds test in force at that point,
+and the translator could read every index expression and every test it met in the two decoders. -/
+theorem C14_unserialize_index_sites_covered :
+    Generated.C14Input.indexSites.all (·.covered) = true ∧ Generated.C14Input.indexSites ≠ [] ∧
+    Generated.C14Input.shapeNotes = [] := by obligation "C14_unserialize_index_sites_covered: an index or slice of the input in std/php/unserialize.go is not covered by a bounds test in force at that point (or the translator could not read one) — see indexSites / shapeNotes in Generated/C14Input.lean"
+
+/-- negation witness: `s[end+1]` under a test that only guarantees `end + 1 <= len` -/
+example : (IndexSite.mk "parsePhpValue" "s[end+1]" "end" 2 (some 1)).covered = false ∧
+    ∃ base len, base + 1 ≤ len ∧ ¬ (base + 1 < len) := uncovered_out_of_range
+
+/-- **Obligation**: the float writer spells a float through `strconv.FormatFloat(…, -1, 64)` only (the shortest digits that
+read back, which is what the lexeme model of `PV.float` trusts) and the three literal spellings. -/
+theorem C14_serialize_float_text_producers :
+    Generated.C14Input.floatCalls.all (Model.InputFacts.floatCalls.contains ·) = true ∧
+    Generated.C14Input.floatLits = Model.InputFacts.floatLits := by obligation "C14_serialize_float_text_producers: the float writer produces text through something else than strconv.FormatFloat(…, -1, 64) and the three literal spellings"
+
+/-! ### the thin wrappers and the JSON text producers -/
+
+open Model.CodecTable Proofs.CodecTable
+
+/-- **Every accepted pair of rows is a round trip**, for every byte string. -/
+theorem C14_wrapper_pairs_roundtrip (enc dec : Wrapper) (hp : pairOK enc dec = true)
+    (fe fd : Model.Codec.Bytes → Model.CodecTable.Out) (he : interp enc = some fe) (hd : interp dec = some fd)
+    (bs : Model.Codec.Bytes) (hb : Model.Codec.IsBytes bs) :
+    ∃ mid, fe bs = .bytes mid ∧ fd mid = .bytes bs := pair_roundtrip enc dec hp fe fd he hd bs hb
+
+/-- the rows the model was written from denote the functions the round-trip theorems above are about -/
+theorem C14_wrapper_rows_denote_model :
+    (find modelRows "base64_encode").bind interp = some (fun s => .bytes (base64Encode s)) ∧
+    (find modelRows "base64_decode").bind interp = some (fun s => match base64Decode s with
+      | some r => .bytes r
+      | none => .false) ∧
+    (find modelRows "urlencode").bind interp = some (fun s => .bytes (urlencode s)) ∧
+    (find modelRows "urldecode").bind interp = some (fun s => .bytes (urldecode s)) ∧
+    (find modelRows "rawurlencode").bind interp = some (fun s => .bytes (rawurlencode s)) ∧
+    (find modelRows "rawurldecode").bind interp = some (fun s => .bytes (rawurldecode s)) ∧
+    (find modelRows "bin2hex").bind interp = some (fun s => .bytes (bin2hex s)) := model_rows_denote
+
+/-- **Obligation**: the byte codecs call the library functions the model re-models, in that order, and answer a library
+error the way the model says (`false` / the input unchanged); the three encoder / decoder pairs are accepted pairs. -/
+theorem C14_wrappers_are_model :
+    Generated.C14Wrappers.wrappers = modelRows ∧ Generated.C14Wrappers.shapeNotes = [] ∧
+    (match find Generated.C14Wrappers.wrappers "base64_encode", find Generated.C14Wrappers.wrappers "base64_decode" with
+     | some e, some d => pairOK e d | _, _ => false) = true ∧
+    (match find Generated.C14Wrappers.wrappers "urlencode", find Generated.C14Wrappers.wrappers "urldecode" with
+     | some e, some d => pairOK e d | _, _ => false) = true ∧
+    (match find Generated.C14Wrappers.wrappers "rawurlencode", find Generated.C14Wrappers.wrappers "rawurldecode" with
+     | some e, some d => pairOK e d | _, _ => false) = true := by obligation "C14_wrappers_are_model: a byte codec (base64_*, url*, rawurl*, bin2hex, md5) calls other library functions, in another order, or answers a library error differently than Model.Codec says"
+
+/-- **Negation witness** (the pinned `rawurlencode` defect had this shape): an encoder row that leaves `+` for a space
+paired with the path decoder is not accepted, and a space does not come back. -/
+theorem C14_wrapper_mismatched_pair :
+    let enc : Wrapper := ⟨"rawurlencode", ["url.QueryEscape(_)"], "none"⟩
+    let dec : Wrapper := ⟨"rawurldecode", ["url.PathUnescape(_)"], "input"⟩
+    pairOK enc dec = false ∧
+    ∃ fe fd, interp enc = some fe ∧ interp dec = some fd ∧ fe [32] = .bytes [43] ∧ fd [43] = .bytes [43] :=
+  mismatched_pair
+
+/-- **Obligation**: `hash()` maps the four algorithm names the correspondence run compares with `crypto/*` to their
+constructors and writes the digest through `hex.EncodeToString` (`digestHex`). -/
+theorem C14_hash_algorithms :
+    hashModel.all (fun p => Generated.C14Wrappers.hashAlgos.lookup p.1 == some p.2) = true ∧
+    Generated.C14Wrappers.hashOut = ["hex.EncodeToString(_)"] := by obligation "C14_hash_algorithms: hash() maps md5 / sha1 / sha256 / sha512 to another constructor or no longer writes the digest through hex.EncodeToString"
+
+/-- **Obligation**: every piece of JSON text the serializer emits is produced by `encoding/json` (member keys included —
+seeded change `C14-json-key-go-quote` quoted keys with `strconv.AppendQuote`), HTML escaping is off, and the two decode
+routes reject what `json.Valid` rejects before anything else. -/
+theorem C14_json_text_producers :
+    Generated.C14Wrappers.jsonProducers.all (fun p => p.2.all (jsonLibs.contains ·)) = true ∧
+    Generated.C14Wrappers.jsonProducers ≠ [] ∧
+    Generated.C14Wrappers.escapeHTML = ["false"] ∧
+    Generated.C14Wrappers.validGates.lookup "UnmarshalValue" = some true ∧
+    Generated.C14Wrappers.validGates.lookup "goJsonDecode" = some true := by obligation "C14_json_text_producers: JSON text is produced by something else than encoding/json, HTML escaping is not switched off, or a decode route lost its json.Valid gate"
+
+end Tie
 
 end C14
